@@ -65,7 +65,9 @@ Follow == /\ stage = "open" /\ Len(chain) < MaxHops
                 /\ st \in Styles(DirOf(Cur), t)
                 \* the process may change its working directory between two hops (a HISTORY: open, chdir, follow):
                 \* `at' is the working directory in effect when this hop is followed - Target() does not mention it
-                /\ \E mv \in BOOLEAN :
+                \* (bound: chdir histories are generated for MaxHops <= 2 only - with three hops over the wide world the
+                \*  5.5 million cases are beyond the harness; the thorough tier runs the two-hop chdir histories as well)
+                /\ \E mv \in (IF MaxHops > 2 THEN {FALSE} ELSE BOOLEAN) :
                      chain' = Append(chain, [file |-> t, sp |-> Spell(DirOf(Cur), t, st),
                                              at |-> IF mv THEN AltCwd(Wd) ELSE Wd])
           /\ UNCHANGED <<cwd, entry, entrySp, fault, stage>>
